@@ -48,14 +48,28 @@ use std::cell::Cell;
 use std::fmt;
 use std::future::Future;
 use std::panic::{self, AssertUnwindSafe};
+#[cfg(not(nexosim_verif))]
 use std::sync::atomic::{AtomicIsize, Ordering};
+#[cfg(nexosim_verif)]
+use crate::verif::sync::atomic::{AtomicIsize, Ordering};
+#[cfg(not(nexosim_verif))]
 use std::sync::{Arc, Mutex};
+#[cfg(nexosim_verif)]
+use crate::verif::sync::{Arc, Mutex};
+#[cfg(not(nexosim_verif))]
 use std::thread::{self, JoinHandle};
+#[cfg(nexosim_verif)]
+use crate::verif::thread::{self, JoinHandle};
+#[cfg(nexosim_verif_shuttle)]
+use crate::verif::LocalKeyCellExt as _;
 use std::time::{Duration, Instant};
 
 // TODO: revert to `crossbeam_utils::sync::Parker` once timeout support lands in
 // v1.0 (see https://github.com/crossbeam-rs/crossbeam/pull/1012).
+#[cfg(not(nexosim_verif))]
 use parking::{Parker, Unparker};
+#[cfg(nexosim_verif)]
+use crate::verif::parking::{Parker, Unparker};
 use slab::Slab;
 
 use crate::channel;
@@ -466,6 +480,8 @@ fn schedule_task(task: Runnable, executor_id: usize) {
                 // The local queue is full. Try to move half of it to the
                 // injector queue; if this fails, just push one task to the
                 // injector queue.
+                #[cfg(nexosim_verif)]
+                crate::verif::probe(crate::verif::Probe::BucketOverflow);
                 if let Ok(drain) = local_queue.drain(|_| Bucket::capacity()) {
                     injector.push_bucket(Bucket::from_iter(drain));
                     local_queue.push(prev_task).unwrap();
@@ -519,6 +535,8 @@ fn run_local_worker(worker: &Worker, id: usize, parker: Parker, abort_signal: Si
                 // No need to call `begin_worker_search()`: this was done by the
                 // thread that unparked the worker.
                 update_msg_count();
+                #[cfg(nexosim_verif)]
+                crate::verif::probe(crate::verif::Probe::WorkerParks);
                 parker.park();
             } else if injector.is_empty() {
                 // This worker could not be deactivated because it was the last
@@ -527,6 +545,8 @@ fn run_local_worker(worker: &Worker, id: usize, parker: Parker, abort_signal: Si
                 // all threads that pushed tasks to the injector queue but could
                 // not activate a new worker, which is why some tasks may now be
                 // visible in the injector queue.
+                #[cfg(nexosim_verif)]
+                crate::verif::probe(crate::verif::Probe::LastWorkerParks);
                 pool_manager.set_all_workers_inactive();
                 update_msg_count();
                 executor_unparker.unpark();
@@ -534,6 +554,8 @@ fn run_local_worker(worker: &Worker, id: usize, parker: Parker, abort_signal: Si
                 // No need to call `begin_worker_search()`: this was done by the
                 // thread that unparked the worker.
             } else {
+                #[cfg(nexosim_verif)]
+                crate::verif::probe(crate::verif::Probe::LastWorkerRecheck);
                 pool_manager.begin_worker_search();
             }
 
@@ -542,6 +564,8 @@ fn run_local_worker(worker: &Worker, id: usize, parker: Parker, abort_signal: Si
             }
 
             let mut search_start = Instant::now();
+            #[cfg(nexosim_verif)]
+            crate::verif::search_reset();
 
             // Process the tasks one by one.
             loop {
@@ -585,12 +609,22 @@ fn run_local_worker(worker: &Worker, id: usize, parker: Parker, abort_signal: Si
                         stealer
                             .steal_and_pop(local_queue, |n| n - n / 2)
                             .map(|(task, _)| {
+                                #[cfg(nexosim_verif)]
+                                crate::verif::probe(crate::verif::Probe::StealSuccess);
                                 let prev_task = fast_slot.replace(Some(task));
                                 assert!(prev_task.is_none());
                             })
                             .is_err()
                     }) {
                         // Give up if unsuccessful for too long.
+                        #[cfg(nexosim_verif)]
+                        if let Some(expired) = crate::verif::search_expired() {
+                            if expired {
+                                pool_manager.end_worker_search();
+                                break;
+                            }
+                            continue;
+                        }
                         if (Instant::now() - search_start) > MAX_SEARCH_DURATION {
                             pool_manager.end_worker_search();
                             break;
@@ -616,6 +650,8 @@ fn run_local_worker(worker: &Worker, id: usize, parker: Parker, abort_signal: Si
                 // Resume the search for tasks.
                 pool_manager.begin_worker_search();
                 search_start = Instant::now();
+                #[cfg(nexosim_verif)]
+                crate::verif::search_reset();
             }
         }
     }));
